@@ -281,6 +281,11 @@ func escapeComment(w writer, s string) error {
 			}
 			escaped = "&gt;"
 
+		case '\r':
+			// A raw CR would be converted to LF when the comment is
+			// tokenized again.
+			escaped = "&#13;"
+
 		default:
 			continue
 		}
@@ -306,7 +311,7 @@ func escapeComment(w writer, s string) error {
 
 // escapeCommentString is to EscapeString as escapeComment is to escape.
 func escapeCommentString(s string) string {
-	if strings.IndexAny(s, "&>") == -1 {
+	if strings.IndexAny(s, "&>\r") == -1 {
 		return s
 	}
 	var buf bytes.Buffer
